@@ -142,6 +142,24 @@ fn cvec_view<T: Nd + Copy + PartialEq, const N0: usize, const SPARE: usize>() {
     unsafe { dropf(view3.data, view3.len, view3.capacity) };
 }
 
+/// state of an iterator made by C code: counts down, then reports the end with its own non-zero code
+#[repr(C)]
+pub struct FIt {
+    left: i32,
+    end_code: i32,
+    calls: u32,
+}
+extern "C" fn foreign_next(st: &mut FIt, out: &mut core::mem::MaybeUninit<i32>) -> i32 {
+    st.calls += 1;
+    if st.left > 0 {
+        unsafe { out.as_mut_ptr().write(st.left) };
+        st.left -= 1;
+        0
+    } else {
+        st.end_code
+    }
+}
+
 nd::harnesses! {
     /// CBox = {instance, drop function}: releasing through the view drops the value exactly once
     /// and frees the allocation (leak check on), like dropping the CBox.
@@ -337,6 +355,39 @@ nd::harnesses! {
             assert!(func(view.iter as *mut u8, slot.as_mut_ptr()) != 0);
         }
         assert!(live() == 0 && drops() == n as u32 && made() == n as u32);
+    }
+
+    /// Values MADE by C code from the published declarations are valid on the Rust side: a box with a null release
+    /// function (what the header's borrowed-box constructor builds; the helpers guard `if (drop_fn && instance)`) is read
+    /// and released without calling anything; an iterator whose function reports the end with ANY non-zero code ends.
+    #[kani::unwind(5)]
+    fn c16_views_made_by_c() {
+        let v: u32 = nd::any();
+        let mut cell = v;
+        {
+            let view = CBox_c_void { instance: &mut cell as *mut u32 as *const u8, drop_fn: 0 };
+            let b: CBox<u32> = unsafe { from_view(view) };
+            assert!(*b == v);
+            drop(b);
+        }
+        assert!(cell == v);
+        let n = nd::range(0, 2) as i32;
+        let end_code: i32 = nd::any();
+        nd::assume(end_code != 0);
+        nd::cover!(end_code < 0, "negative end code");
+        nd::cover!(end_code == 1, "end code 1");
+        let mut st = FIt { left: n, end_code, calls: 0 };
+        {
+            let view = CIterator_i32 { iter: &mut st as *mut FIt as *const u8, func: foreign_next as usize };
+            let mut it: CIterator<i32> = unsafe { from_view(view) };
+            let mut j = n;
+            while j > 0 {
+                assert!(it.next() == Some(j));
+                j -= 1;
+            }
+            assert!(it.next().is_none(), "0 for an item, anything else ends the iteration");
+        }
+        assert!(st.calls == n as u32 + 1);
     }
 
     /// Option/result tags: None=0/Some=1, Ok=0/Err=1, read as a C int at offset 0, payload at the
